@@ -156,7 +156,7 @@ CLAIMED = {
         "view mashing, number of views - is applied per call, not baked into the table - unless every setter of that input resets the table's flag); the integer "
         "division in the forward ring-pair map is exact: segments with one ring difference and odd (ring difference - offset) must be "
         "rejected - today they are accepted with a warning: KNOWN FINDING F22 (ring pairs not partitioned for max_delta-truncated last "
-        "segments; replayed; not repaired, see DESIGN.md). "
+        "segments; replayed; not repaired, see DESIGN.md); the detector-pair table is read only for pairs of different detector numbers (F71, fixed). "
         "NOT decided: that the interleaving formula and its hand inversion are mutual inverses, that the Michelogram formulas partition "
         "ring pairs, reported counts (modular arithmetic over runtime scanner parameters).",
         technique="static analysis: branch-structure duality check, must-pass-through with success-conditional callee summaries, "
